@@ -405,3 +405,37 @@ pub fn hexv(b: &[u8]) -> String {
 
 #[allow(dead_code)]
 fn _unused(_: Fq, _: Fq2) {}
+
+/// A G1 point chosen by its x-coordinate (G1 is the whole curve: cofactor 1): x from the boundary classes of `felt`
+/// (incremented until x^3 + 5 is a residue), y = +-sqrt(x^3 + 5), in representation category `cat` (0 affine, 2 rescaled;
+/// 1 = a library Jacobian representative obtained as (P + P) - P). The discrete log is unknown (reported as 0).
+pub fn g1_point_from_x(s: &mut Src, cat: usize) -> Result<Pt<GA>, Failure> {
+    let q = zp::q();
+    let mut x = felt(s, Md::Q).v;
+    let y = loop {
+        let rhs = zp::add_mod(&zp::mul_mod(&zp::mul_mod(&x, &x, q), &x, q), &BigUint::from(5u32), q);
+        if let Some(y) = zp::sqrt_mod_5mod8(&rhs, q) {
+            if !y.is_zero() {
+                break y;
+            }
+        }
+        x = (x + 1u32) % q;
+    };
+    let y = if s.bool() { y } else { zp::neg_mod(&y, q) };
+    let a = (rf::f_from_big(&x), rf::f_from_big(&y));
+    let (rep, how, val) = match cat % 3 {
+        0 => (Rep::Affine, format!("affine point with chosen x = {:x}", x), GA::affine(&a)),
+        1 => {
+            let p = GA::affine(&a);
+            (Rep::LibJac, format!("(P+P)-P for the point with chosen x = {:x}", x), (p + p) - p)
+        }
+        _ => {
+            let (l, ln) = GA::lambda(s);
+            (Rep::Rescaled, format!("point with chosen x = {:x} rescaled by {} = {}", x, ln, GA::show_b(&l)), GA::rescaled(&a, &l))
+        }
+    };
+    if GA::denotes(&val) != Some(a) {
+        return Err(opfail("G1-from-x", format!("[{}] = {} does not denote ({:x}, {:x})", how, GA::show(&val), x, y)));
+    }
+    Ok(Pt { k: BigUint::zero(), rep, how, val, aff: Some(a) })
+}
